@@ -224,3 +224,149 @@ Qed.
 Theorem form_roundtrip_char : forall f verbose,
   form_fromjson (form_tojson verbose f) = if form_parses f then Ok (form_canon f) else Err EValue.
 Proof. intros f verbose. exact (form_roundtrip_char_all f verbose true). Qed.
+
+(* ---------------------------------------------------------------- corollaries: the fragment form_wf inside the characterisation *)
+Lemma wf_parses_canon f : form_wf f = true -> form_parses f = true /\ form_canon f = f.
+Proof.
+  intros H. pose proof (form_json_roundtrip_thm f false H) as R. rewrite form_roundtrip_char in R.
+  destruct (form_parses f); [|discriminate R]. split; [reflexivity|]. congruence.
+Qed.
+
+(** 1. two well-formed forms with the same JSON (whatever the verbosity of each) are equal *)
+Theorem form_json_injective_thm : forall f g v w,
+  form_wf f = true -> form_wf g = true -> form_tojson v f = form_tojson w g -> f = g.
+Proof.
+  intros f g v w Hf Hg E.
+  pose proof (form_json_roundtrip_thm f v Hf) as Rf. pose proof (form_json_roundtrip_thm g w Hg) as Rg.
+  rewrite E in Rf. congruence.
+Qed.
+
+(** 4. verbose and compact JSON read back identically: for EVERY form (both fail, or both give the same form) *)
+Theorem form_json_verbose_compact_thm : forall f,
+  form_fromjson (form_tojson true f) = form_fromjson (form_tojson false f).
+Proof. intros f. rewrite !form_roundtrip_char. reflexivity. Qed.
+
+(* ---------------------------------------------------------------- what comes back is well-formed *)
+Lemma bytes_ltb_total a : forall b, bytes_ltb a b = false -> bytes_ltb b a = false -> a = b.
+Proof.
+  induction a as [|x a IH]; intros [|y b] H1 H2; simpl in *; try discriminate; [reflexivity|].
+  destruct (x <? y) eqn:Exy; [discriminate|]. destruct (y <? x) eqn:Eyx; [discriminate|].
+  apply Z.ltb_ge in Exy, Eyx. assert (x = y) by lia. subst. f_equal. apply IH; assumption.
+Qed.
+
+Section PSetSorted.
+  Context {V : Type}.
+  Lemma psorted_head_irrel k (v v' : V) r : psorted ((k, v) :: r) = psorted ((k, v') :: r).
+  Proof. reflexivity. Qed.
+
+  Lemma psorted_pset_below (m : list (bytes * V)) : forall k0 v0 k v,
+    psorted ((k0, v0) :: m) = true -> bytes_ltb k0 k = true -> psorted ((k0, v0) :: pset k v m) = true.
+  Proof.
+    induction m as [|[k1 v1] r IH]; intros k0 v0 k v H Hlt.
+    - simpl. rewrite Hlt. reflexivity.
+    - change (psorted ((k0, v0) :: (k1, v1) :: r)) with (bytes_ltb k0 k1 && psorted ((k1, v1) :: r)) in H.
+      apply andb_true_iff in H as [H1 H2]. cbn [pset].
+      destruct (bytes_ltb k k1) eqn:E1.
+      + change (bytes_ltb k0 k && (bytes_ltb k k1 && psorted ((k1, v1) :: r)) = true). rewrite Hlt, E1, H2. reflexivity.
+      + destruct (bytes_ltb k1 k) eqn:E2.
+        * change (bytes_ltb k0 k1 && psorted ((k1, v1) :: pset k v r) = true). rewrite H1. apply IH; assumption.
+        * pose proof (bytes_ltb_total _ _ E1 E2). subst k1.
+          change (bytes_ltb k0 k && psorted ((k, v) :: r) = true). rewrite Hlt, (psorted_head_irrel k v v1). exact H2.
+  Qed.
+
+  Lemma psorted_pset (m : list (bytes * V)) k v : psorted m = true -> psorted (pset k v m) = true.
+  Proof.
+    destruct m as [|[k1 v1] r]; intros H; [reflexivity|]. cbn [pset].
+    destruct (bytes_ltb k k1) eqn:E1.
+    - change (bytes_ltb k k1 && psorted ((k1, v1) :: r) = true). rewrite E1. exact H.
+    - destruct (bytes_ltb k1 k) eqn:E2.
+      + apply psorted_pset_below; assumption.
+      + pose proof (bytes_ltb_total _ _ E1 E2). subst k1. rewrite (psorted_head_irrel k v v1). exact H.
+  Qed.
+
+  Lemma nonul_keys_pset (m : list (bytes * V)) k v :
+    nonul k = true -> forallb (fun kv => nonul (fst kv)) m = true -> forallb (fun kv => nonul (fst kv)) (pset k v m) = true.
+  Proof.
+    intros Hk. induction m as [|[k1 v1] r IH]; intros H; simpl in *; [rewrite Hk; reflexivity|].
+    apply andb_true_iff in H as [H1 H2].
+    destruct (bytes_ltb k k1); simpl; [rewrite Hk, H1, H2; reflexivity|].
+    destruct (bytes_ltb k1 k); simpl; [rewrite H1; exact (IH H2)|rewrite Hk, H2; reflexivity].
+  Qed.
+End PSetSorted.
+
+Lemma nonul_cstr s : nonul (cstr s) = true.
+Proof. induction s as [|c s IH]; simpl; [reflexivity|]. destruct (c =? 0) eqn:E; simpl; [reflexivity|]. rewrite E. exact IH. Qed.
+
+Lemma pcanon_wf ps : psorted (pcanon ps) = true /\ forallb (fun kv => nonul (fst kv)) (pcanon ps) = true.
+Proof.
+  unfold pcanon. generalize (map (fun kv : bytes * json => (cstr (fst kv), snd kv)) ps). intros l.
+  assert (G : forall acc : params, psorted acc = true -> forallb (fun kv => nonul (fst kv)) acc = true ->
+            psorted (fold_left (fun acc kv => pset (cstr (fst kv)) (snd kv) acc) l acc) = true /\
+            forallb (fun kv => nonul (fst kv)) (fold_left (fun acc kv => pset (cstr (fst kv)) (snd kv) acc) l acc) = true).
+  { induction l as [|[k v] l IH]; intros acc H1 H2; simpl; [split; assumption|].
+    apply IH; [apply psorted_pset; exact H1|apply nonul_keys_pset; [apply nonul_cstr|exact H2]]. }
+  apply G; reflexivity.
+Qed.
+
+Lemma meta_canon_wf m : meta_wf (meta_canon m) = true.
+Proof.
+  unfold meta_wf, meta_canon. cbn [m_params m_key]. destruct (pcanon_wf (m_params m)) as [H1 H2]. rewrite H1, H2.
+  destruct (m_key m); [apply nonul_cstr|reflexivity].
+Qed.
+
+Lemma canon_wf_list cs :
+  Forall (fun f => form_parses f = true -> form_wf (form_canon f) = true) cs -> forall n,
+  forallb (fun b : bool => b) (firstn n (map form_parses cs)) = true ->
+  forallb form_wf (firstn n (map form_canon cs)) = true.
+Proof.
+  induction 1 as [|c cs Hc Hcs IH]; intros [|n] H; simpl in *; try reflexivity.
+  apply andb_true_iff in H as [H1 H2]. rewrite (Hc H1). exact (IH n H2).
+Qed.
+
+Lemma firstn_all_map {A B} (f : A -> B) (l : list A) : firstn (length l) (map f l) = map f l.
+Proof. rewrite <- (map_length f l). apply firstn_all. Qed.
+
+Lemma nonul_map_cstr ks : forallb nonul (map cstr ks) = true.
+Proof. induction ks as [|k ks IH]; simpl; [reflexivity|]. rewrite nonul_cstr. exact IH. Qed.
+
+Theorem form_canon_wf f : form_parses f = true -> form_wf (form_canon f) = true.
+Proof.
+  induction f as [m inner itemsize format dt|m|m o c IH|m s e c IH|m c size IH|m i c IH|m i c IH|m k c vw IH
+                 |m k c vw lsb IH|m c IH|m t i cs IH|m ks cs IH|m hl|m g hl IH] using form_ind';
+    cbn [form_parses form_canon form_wf]; intros H; rewrite ?meta_canon_wf; cbn [andb];
+    repeat match type of H with _ && _ = true => let H' := fresh "H" in apply andb_true_iff in H as [H H'] end;
+    try solve [ reflexivity
+              | repeat match goal with Hx : _ = true |- _ => rewrite Hx; clear Hx end; cbn [andb]; auto ].
+  - rewrite H, H0, Z.eqb_refl, bytes_eqb_refl. reflexivity.
+  - rewrite H, H1. cbn [andb]. rewrite <- (firstn_all_map form_canon cs). apply canon_wf_list; [exact IH|].
+    rewrite firstn_all_map. exact H0.
+  - destruct ks as [ks|].
+    + cbn [form_parses] in H. cbn [form_canon form_wf]. rewrite meta_canon_wf. cbn [andb].
+      rewrite (canon_wf_list cs IH _ H). cbn [andb]. rewrite nonul_map_cstr, andb_true_r.
+      apply Nat.eqb_eq. rewrite map_length, !firstn_length, map_length. apply Nat.min_comm.
+    + cbn [form_parses] in H. cbn [form_canon form_wf]. rewrite meta_canon_wf. cbn [andb]. rewrite andb_true_r.
+      rewrite <- (firstn_all_map form_canon cs). apply canon_wf_list; [exact IH|]. rewrite firstn_all_map. exact H.
+Qed.
+
+(** 3. EXACTNESS of the fragment: a form that survives the round trip (either verbosity) is well-formed *)
+Theorem form_roundtrip_exact_thm : forall f v, form_fromjson (form_tojson v f) = Ok f -> form_wf f = true.
+Proof.
+  intros f v R. rewrite form_roundtrip_char in R. destruct (form_parses f) eqn:P; [|discriminate R].
+  assert (E : form_canon f = f) by congruence. rewrite <- E. exact (form_canon_wf f P).
+Qed.
+
+Theorem form_roundtrip_iff_thm : forall f v, form_fromjson (form_tojson v f) = Ok f <-> form_wf f = true.
+Proof. intros f v. split; [apply form_roundtrip_exact_thm|apply form_json_roundtrip_thm]. Qed.
+
+(** 5. whatever comes back is well-formed, hence a fixed point of the round trip (idempotence outside the fragment) *)
+Theorem form_roundtrip_idempotent_thm : forall f f' v,
+  form_fromjson (form_tojson v f) = Ok f' ->
+  form_wf f' = true /\ forall w, form_fromjson (form_tojson w f') = Ok f'.
+Proof.
+  intros f f' v R. rewrite form_roundtrip_char in R. destruct (form_parses f) eqn:P; [|discriminate R].
+  assert (E : form_canon f = f') by congruence. subst f'.
+  split; [exact (form_canon_wf f P)|]. intros w. apply form_json_roundtrip_thm. exact (form_canon_wf f P).
+Qed.
+
+Corollary form_canon_idem f : form_parses f = true -> form_canon (form_canon f) = form_canon f.
+Proof. intros P. exact (proj2 (wf_parses_canon _ (form_canon_wf f P))). Qed.
